@@ -5,6 +5,7 @@ two streams.
 -/
 import PubgrubModel
 import PubgrubModel.Diag
+import PubgrubModel.ContainersDriver
 
 open Pubgrub Pubgrub.Protocol
 
@@ -92,6 +93,8 @@ def evalLine (line : String) : String :=
       "|U=" ++ toString (mask (VersionSet.union x y)) ++
       "|D=" ++ bit (VersionSet.isDisjoint x y) ++ "|S=" ++ bit (VersionSet.subsetOf x y)
     | _, _ => bad
+  | ["svx", script] => ContainersDriver.svx script
+  | ["smx", script] => ContainersDriver.smx script
   | ["sv1", a, b, c] =>
     match a.toNat?, b.toNat?, c.toNat? with
     | some a, some b, some c => MiscDriver.sv1 a b c
